@@ -119,6 +119,7 @@ type Enc struct {
 	assumedGlobalInv bool
 	curInstr  ssa.Instruction
 	trace     *traceState
+	subTags   int
 	protected bool // a deferred recoverFunc is active (function-level)
 	panicStates []*State
 }
@@ -362,6 +363,14 @@ func (e *Enc) strConst(s string) Term {
 }
 
 // typeAssume returns facts that hold for any value of Go type t (ranges, ref below hwm, lengths).
+// root(r): the allocation a reference belongs to (an object is its own root; embedded sub-objects and
+// elements of struct arrays have the root of their container). "Allocated before state S" is root(r) < S.hwm.
+func (e *Enc) root(v Term) Term {
+	e.decls.fun("root", []string{"Int"}, "Int")
+	e.decls.add("ax:root0", "(assert (= (root 0) 0))")
+	return app(SInt, "root", v)
+}
+
 func (e *Enc) typeAssume(v Term, t types.Type, hwm Term) Term {
 	if lo, hi, ok := intRange(t); ok {
 		return And(Le(IStr(lo), v), Le(v, IStr(hi)))
@@ -369,14 +378,14 @@ func (e *Enc) typeAssume(v Term, t types.Type, hwm Term) Term {
 	switch u := t.Underlying().(type) {
 	case *types.Pointer, *types.Map, *types.Chan, *types.Signature:
 		_ = u
-		return And(Le(I(0), v), Lt(v, hwm))
+		return And(Le(I(0), e.root(v)), Lt(e.root(v), hwm))
 	case *types.Slice:
 		e.declSlice()
 		capMax := "72057594037927936" // 2^56: no Go slice of non-empty elements can be longer (address space)
 		if st, ok := u.Elem().Underlying().(*types.Struct); ok && st.NumFields() == 0 {
 			capMax = "9223372036854775807"
 		}
-		return And(Le(I(0), app(SInt, "sl_base", v)), Lt(app(SInt, "sl_base", v), hwm), Le(I(0), app(SInt, "sl_off", v)), Le(app(SInt, "sl_off", v), IStr(capMax)), Le(I(0), app(SInt, "sl_len", v)), Le(app(SInt, "sl_len", v), app(SInt, "sl_cap", v)), Le(app(SInt, "sl_cap", v), IStr(capMax)),
+		return And(Le(I(0), e.root(app(SInt, "sl_base", v))), Lt(e.root(app(SInt, "sl_base", v)), hwm), Le(I(0), app(SInt, "sl_off", v)), Le(app(SInt, "sl_off", v), IStr(capMax)), Le(I(0), app(SInt, "sl_len", v)), Le(app(SInt, "sl_len", v), app(SInt, "sl_cap", v)), Le(app(SInt, "sl_cap", v), IStr(capMax)),
 			Imp(Eq(v, I(0)), And(Eq(app(SInt, "sl_len", v), I(0)), Eq(app(SInt, "sl_cap", v), I(0)))))
 	case *types.Basic:
 		if u.Info()&types.IsString != 0 {
@@ -385,7 +394,7 @@ func (e *Enc) typeAssume(v Term, t types.Type, hwm Term) Term {
 		}
 	case *types.Struct:
 		if !isOpaqueStruct(t) {
-			return And(Lt(I(0), v), Lt(v, hwm))
+			return And(Not(Eq(v, I(0))), Lt(I(0), e.root(v)), Lt(e.root(v), hwm))
 		}
 	case *types.Interface:
 		e.declIface()
@@ -477,6 +486,9 @@ func (e *Enc) allocRef(st *State, prefix string) Term {
 	r := e.def(prefix, st.hwm)
 	st.hwm = e.def("hwm", Add(st.hwm, I(1)))
 	e.assume(st.reach, Lt(I(0), r))
+	e.assert(Eq(e.root(r), r))
+	e.decls.fun("subtag", []string{"Int"}, "Int")
+	e.assert(Eq(app(SInt, "subtag", r), I(0)))
 	return r
 }
 
@@ -528,7 +540,12 @@ func (e *Enc) subRef(tname string, field string, obj Term) Term {
 	f := "sub_" + sanitize(tname) + "_" + sanitize(field)
 	e.decls.fun(f, []string{"Int"}, "Int")
 	e.decls.fun(f+"_inv", []string{"Int"}, "Int")
-	e.decls.add("ax:"+f, fmt.Sprintf("(assert (forall ((o Int)) (! (and (= (%s_inv (%s o)) o) (not (= (%s o) 0))) :pattern ((%s o)))))", f, f, f, f))
+	e.root(obj)
+	e.decls.fun("subtag", []string{"Int"}, "Int")
+	if !e.decls.seen["ax:"+f] {
+		e.subTags++
+	}
+	e.decls.add("ax:"+f, fmt.Sprintf("(assert (forall ((o Int)) (! (and (= (%s_inv (%s o)) o) (not (= (%s o) 0)) (= (root (%s o)) (root o)) (= (subtag (%s o)) %d)) :pattern ((%s o)))))", f, f, f, f, f, e.subTags, f))
 	return app(SInt, f, obj)
 }
 
@@ -536,7 +553,8 @@ func (e *Enc) elemRef(base, idx Term) Term {
 	e.decls.fun("elemref", []string{"Int", "Int"}, "Int")
 	e.decls.fun("elemref_b", []string{"Int"}, "Int")
 	e.decls.fun("elemref_i", []string{"Int"}, "Int")
-	e.decls.add("ax:elemref", "(assert (forall ((b Int) (i Int)) (! (and (= (elemref_b (elemref b i)) b) (= (elemref_i (elemref b i)) i) (not (= (elemref b i) 0))) :pattern ((elemref b i)))))")
+	e.root(base)
+	e.decls.add("ax:elemref", "(assert (forall ((b Int) (i Int)) (! (and (= (elemref_b (elemref b i)) b) (= (elemref_i (elemref b i)) i) (not (= (elemref b i) 0)) (= (root (elemref b i)) (root b))) :pattern ((elemref b i)))))")
 	return app(SInt, "elemref", base, idx)
 }
 
@@ -710,13 +728,15 @@ func (e *Enc) globalAddr(g *ssa.Global) Val {
 	if isStructVal(t) {
 		c := "gref_" + sanitize(name)
 		e.decls.add("const:"+c, fmt.Sprintf("(declare-const %s Int)", c))
-		e.decls.add("ax:"+c, fmt.Sprintf("(assert (and (> %s 0) (< %s hwm0)))", c, c))
+		e.root(I(0))
+		e.decls.add("ax:"+c, fmt.Sprintf("(assert (and (> %s 0) (< %s hwm0) (= (root %s) %s)))", c, c, c, c))
 		return tv(Term{c, SInt})
 	}
 	if _, ok := t.Underlying().(*types.Array); ok {
 		c := "gref_" + sanitize(name)
 		e.decls.add("const:"+c, fmt.Sprintf("(declare-const %s Int)", c))
-		e.decls.add("ax:"+c, fmt.Sprintf("(assert (and (> %s 0) (< %s hwm0)))", c, c))
+		e.root(I(0))
+		e.decls.add("ax:"+c, fmt.Sprintf("(assert (and (> %s 0) (< %s hwm0) (= (root %s) %s)))", c, c, c, c))
 		return tv(Term{c, SInt})
 	}
 	return Val{A: &Addr{kind: aGlob, heap: name, sort: sortOf(t), typ: t}}
